@@ -432,3 +432,23 @@ func TestAppendCaps() {
 	verifrt.Assert(cap(huge) == 57344, "[]byte 40000 + 1")
 	verifrt.Reach("caps")
 }
+
+// TestRLockLostUpdate: two goroutines decrement a counter under a *read* lock:
+// the engine must find the lost update (loads inside read-locked sections are
+// preemption points under delay_preempt). The selftest expects the violation.
+func TestRLockLostUpdate() {
+	var mu sync.RWMutex
+	n := 2
+	done := make(chan struct{}, 2)
+	for i := 0; i < 2; i++ {
+		go func() {
+			mu.RLock()
+			n--
+			mu.RUnlock()
+			done <- struct{}{}
+		}()
+	}
+	<-done
+	<-done
+	verifrt.Assert(n == 0, "lost update under a read lock")
+}
